@@ -124,8 +124,9 @@ func checkC13(c c13Case) error {
 	if (vEnc == nil) != (vDec == nil) {
 		return finding("directions-disagree", "%s: encode verdict (%v) differs from decode verdict (%v)\nprot=%s unprot=%s\nwire=%x", c.Ctx, vEnc, vDec, c.Prot, c.Unprot, wire)
 	}
-	// independence of the Go integer type spelling the labels
-	for sp := uint8(0); sp < rc.NumSpellings; sp++ {
+	// independence of the Go integer type spelling the labels (not applicable when the caller
+	// spelt one label twice: re-spelling would merge the two Go map keys)
+	for sp := uint8(0); sp < rc.NumSpellings && !hasDupLabels(c.Prot) && !hasDupLabels(c.Unprot); sp++ {
 		if !spellingFitsAll(c.Prot, sp) || !spellingFitsAll(c.Unprot, sp) {
 			continue
 		}
@@ -144,6 +145,18 @@ func checkC13(c c13Case) error {
 	}
 	stats.Class("ctx/" + c.Ctx)
 	return nil
+}
+
+func hasDupLabels(v rc.Val) bool {
+	seen := map[string]bool{}
+	for _, e := range v.M {
+		id := string(rc.Encode(e.K, nil))
+		if seen[id] {
+			return true
+		}
+		seen[id] = true
+	}
+	return false
 }
 
 func spellingFitsAll(v rc.Val, sp uint8) bool {
@@ -190,25 +203,11 @@ var c13Labels = []rc.Val{rc.Int(1), rc.Int(2), rc.Int(3), rc.Int(4), rc.Int(5), 
 
 var c13Ctxs = []string{"protected", "unprotected", "sign1", "untagged", "signature", "countersignature", "sign-body"}
 
-// TestC13_Grid enumerates single-parameter cells, IV / Partial IV pairs and
-// crit combinations completely.
-func TestC13_Grid(t *testing.T) {
-	begin(t, "C13", "grid")
-	n := 0
-	sh, nsh := gridShard()
-	run := func(c c13Case) {
-		n++
-		if n%nsh != sh {
-			return
-		}
-		stats.Eval()
-		judge(t, "c13", c, checkC13)
-		if n%97 == 0 {
-			stats.Sample("cell/"+c.Ctx, map[string]any{"cell": c.Cell, "ctx": c.Ctx, "prot": c.Prot.String(), "unprot": c.Unprot.String()})
-		}
-		stats.NTBytes([]byte(c.Cell))
-	}
-	// (1) one parameter: label x value kind x bucket x context x label spelling
+
+// forEachSingleParamCell enumerates the single-parameter header cells: label x
+// value kind x bucket x context (x every fitting Go spelling of the label when
+// spellings is set).
+func forEachSingleParamCell(spellings bool, run func(c c13Case)) {
 	for _, ctx := range c13Ctxs {
 		for _, bucket := range []string{"P", "U"} {
 			if (ctx == "protected" && bucket == "U") || (ctx == "unprotected" && bucket == "P") {
@@ -221,6 +220,9 @@ func TestC13_Grid(t *testing.T) {
 						v = rc.Array(l)
 					}
 					for sp := uint8(0); sp < rc.NumSpellings; sp++ {
+						if !spellings && sp > 0 {
+							break
+						}
 						lab := l
 						if l.K == rc.KInt {
 							i, _ := l.Int64()
@@ -243,6 +245,28 @@ func TestC13_Grid(t *testing.T) {
 			}
 		}
 	}
+}
+
+// TestC13_Grid enumerates single-parameter cells, IV / Partial IV pairs and
+// crit combinations completely.
+func TestC13_Grid(t *testing.T) {
+	begin(t, "C13", "grid")
+	n := 0
+	sh, nsh := gridShard()
+	run := func(c c13Case) {
+		n++
+		if n%nsh != sh {
+			return
+		}
+		stats.Eval()
+		judge(t, "c13", c, checkC13)
+		if n%97 == 0 {
+			stats.Sample("cell/"+c.Ctx, map[string]any{"cell": c.Cell, "ctx": c.Ctx, "prot": c.Prot.String(), "unprot": c.Unprot.String()})
+		}
+		stats.NTBytes([]byte(c.Cell))
+	}
+	// (1) one parameter: label x value kind x bucket x context x label spelling
+	forEachSingleParamCell(true, run)
 	stats.ExhaustivePart("single-parameter-cells", n/nsh)
 	// (2) IV / Partial IV pairs: buckets x spellings x contexts (+ each alone)
 	n0 := n
@@ -348,6 +372,37 @@ func TestC13_Grid(t *testing.T) {
 		}
 	}
 	stats.ExhaustivePart("valid-plus-second-parameter-pairs", (n-n0)/nsh)
+	// (5) one label spelt twice with two different Go integer types (must never be encodable)
+	n0 = n
+	for _, ctx := range []string{"protected", "unprotected", "sign1", "signature", "countersignature"} {
+		for _, bucket := range []string{"P", "U"} {
+			if (ctx == "protected" && bucket == "U") || (ctx == "unprotected" && bucket == "P") {
+				continue
+			}
+			for _, l := range []int64{4, 42, 300, 99, 1} {
+				for s1 := uint8(0); s1 < rc.NumSpellings; s1++ {
+					for s2 := s1 + 1; s2 < rc.NumSpellings; s2++ {
+						if (s1 != rc.SpInt64 && !bridge.SpellingFits(l, s1)) || !bridge.SpellingFits(l, s2) {
+							continue
+						}
+						v1, v2 := rc.Bytes([]byte("a")), rc.Bytes([]byte("b"))
+						if l == 1 {
+							v1, v2 = rc.Int(-7), rc.Int(-8)
+						}
+						m := rc.Map(rc.E(rc.IntSp(l, s1), v1), rc.E(rc.IntSp(l, s2), v2), rc.E(rc.Text("other"), rc.Int(1)))
+						c := c13Case{Ctx: ctx, Prot: rc.Map(), Unprot: rc.Map(), Cell: fmt.Sprintf("dup-label/%s/%s/%d/sp%d+sp%d", ctx, bucket, l, s1, s2)}
+						if bucket == "P" {
+							c.Prot = m
+						} else {
+							c.Unprot = m
+						}
+						run(c)
+					}
+				}
+			}
+		}
+	}
+	stats.ExhaustivePart("one-label-two-spellings", (n-n0)/nsh)
 }
 
 // TestC13_Random: conforming generated headers with 0-3 rule-relevant edits.
